@@ -73,7 +73,7 @@ class PROP(Prop):
     def static_checks(self, w):
         m = extract.load(RSYNC)
         out = []
-        at = ast.unparse(m.func("RSync.add_target"))
+        at = extract.flat_src(m, "RSync.add_target")
         out.append(("static/RSync.add_target/destdir-and-options-sent-first", "channel.send((str(destdir), options))" in at and "channel.setcallback(itemcallback, endmarker=None)" in at, "add_target"))
         r = extract.load(RSYNCR)
         sr = ast.unparse(r.func("serve_rsync"))
